@@ -191,6 +191,8 @@ type State struct {
 	MaxForks  int
 	pcSet     map[int]bool
 	ForkSites map[string]int
+	ForcedChoices []int // values of the first vp.Choice calls (job splitting)
+	choiceIdx     int
 	MaxConc   int // most values a symbolic index/size is concretised to (default 4)
 
 	journalOn int
